@@ -295,11 +295,12 @@ let rand_blob r = let l = pick r [| 0; 1; 2; 3; 8; 127; 128; 129; 255 |] in rand
 let rand_u32 r = pick r [| Z.zero; Z.one; Z.of_int 127; Z.of_int 128; Z.of_int 16384; Z.pred (p2 32); Z.of_int 0x12345 |]
 
 (* entries a script may name: 0 = root .. nk = last kid; refs *)
-let rand_entry r nk = rand_int r (nk + 1)
+(* nk+1, nk+2: ids the harness reserves and never adds (beyond the unit's entries vector) *)
+let rand_entry r nk = if rand_int r 16 = 0 then nk + 1 + rand_int r 2 else rand_int r (nk + 1)
 let rand_rf r nk other_mode =
   match rand_int r 8 with
   | 0 -> Sym (rand_int r 3)
-  | 1 | 2 when other_mode <> 0 -> Other (rand_int r 3)
+  | 1 | 2 when other_mode <> 0 -> Other (if rand_int r 12 = 0 then 3 else rand_int r 3)   (* o 3: reserved, never added *)
   | _ -> Kid (rand_entry r nk)
 
 let simple_ops = [| 0x13; 0x16; 0x17; 0x19; 0x1a; 0x1b; 0x1c; 0x1d; 0x1e; 0x1f; 0x20; 0x21; 0x22; 0x24; 0x25; 0x26; 0x27;
@@ -460,6 +461,15 @@ let () =
         [{ version = 4; fmt64 = false; asize = 8; be = false }; { version = 5; fmt64 = true; asize = 4; be = true };
          { version = 2; fmt64 = false; asize = 4; be = false }; { version = 2; fmt64 = true; asize = 8; be = true };
          { version = 2; fmt64 = false; asize = 1; be = false }; { version = 3; fmt64 = false; asize = 2; be = true }];
+      (* --- ids beyond the entries vector (reserved, never added): entries 4 and 5 of a 3-kid unit, `o 3` of the other unit --- *)
+      List.iter (fun c ->
+        List.iter (fun ctx -> List.iter (fun other_mode -> List.iter (fun e ->
+          List.iter (fun s -> emit_unit emit name ctx c ~kids:"vbv" ~holder:1 ~other_mode s)
+            ([[Dt (false, 4, e)]; [Call e]; [Pr e]; [Cr (Kid e)]; [Vv (Kid e)]; [Ip (Kid e, Z.of_int 3)]; [Ct (e, [1])]; [Rt (3, e)]; [Cv (Some e)];
+              [Cu (Z.of_int 7); Ev [Call e]]]
+             @ (if other_mode = 0 then [] else [[Cr (Other 3)]; [Ip (Other 3, Z.one)]; [Vv (Other 3); Cr (Other 1)]]))) [4; 5]) [0; 1; 2]) ["die"; "loc"])
+        [{ version = 4; fmt64 = false; asize = 8; be = false }; { version = 5; fmt64 = true; asize = 4; be = true };
+         { version = 2; fmt64 = false; asize = 4; be = true }];
       (* --- CFI: every kind x section x version --- *)
       List.iter (fun version -> List.iter (fun eh -> List.iter (fun kind -> List.iter (fun asize ->
         let c = { version; fmt64 = (asize = 8 && version = 4); asize; be = (version = 3) } in
